@@ -16,7 +16,7 @@ use serde_json::{Value, json};
 use std::collections::{BTreeSet, HashMap};
 use std::sync::Arc;
 use surf_n_term::image::OcTree;
-use surf_n_term::{Color, ColorPalette, Image, Position, RGBA, Shape, Size, Surface};
+use surf_n_term::{Color, ColorPalette, Image, RGBA, Shape, Size, Surface};
 use verif_harness::{Cfg, r#gen::Rng, guarded, out::Out, out::hex};
 
 type Rgb = [u8; 3];
@@ -450,36 +450,104 @@ fn run_oct(out: &mut Out, colors: &[RGBA], ops: &str, kind: &str) {
 
 #[derive(Clone)]
 struct QuantCase {
+    /// logical size of the full image
     height: usize,
     width: usize,
+    /// backing buffer; pixel (r, c) of the full image is `data[start + r·row_stride + c·col_stride]`
     data: Vec<RGBA>,
+    /// (start, row_stride, col_stride); `None` = dense row-major `(0, width, 1)`
+    layout: Option<(usize, usize, usize)>,
     /// rows r0..r1, cols c0..c1 of the full image
     crop: Option<(usize, usize, usize, usize)>,
     k: usize,
     dither: bool,
     bg: Option<RGBA>,
+    /// quantisations made before this one ON THE SAME THREAD (results not judged here): nothing they
+    /// leave behind may influence this call
+    before: Vec<QuantCase>,
 }
 
 impl QuantCase {
+    fn lay(&self) -> (usize, usize, usize) {
+        self.layout.unwrap_or((0, self.width, 1))
+    }
+    /// raw pixel of the full image, by the harness' own index arithmetic
+    fn raw(&self, r: usize, c: usize) -> RGBA {
+        let (s, rs, cs) = self.lay();
+        self.data[s + r * rs + c * cs]
+    }
     fn to_json(&self) -> Value {
         json!({"kind": "quant", "height": self.height, "width": self.width, "data": rgba_hex(&self.data),
+               "layout": self.layout.map(|(a, b, c)| vec![a, b, c]),
                "crop": self.crop.map(|(a, b, c, d)| vec![a, b, c, d]), "k": self.k.to_string(), "dither": self.dither,
-               "bg": self.bg.map(|b| rgba_hex(&[b]))})
+               "bg": self.bg.map(|b| rgba_hex(&[b])),
+               "before": self.before.iter().map(|c| c.to_json()).collect::<Vec<_>>()})
     }
     fn from_json(v: &Value) -> Option<QuantCase> {
         let crop = v["crop"].as_array().map(|a| {
             let g = |i: usize| a[i].as_u64().unwrap_or(0) as usize;
             (g(0), g(1), g(2), g(3))
         });
+        let layout = v["layout"].as_array().map(|a| {
+            let g = |i: usize| a[i].as_u64().unwrap_or(0) as usize;
+            (g(0), g(1), g(2))
+        });
         Some(QuantCase {
             height: v["height"].as_u64()? as usize,
             width: v["width"].as_u64()? as usize,
             data: rgba_unhex(v["data"].as_str()?),
+            layout,
             crop,
             k: v["k"].as_str()?.parse().ok()?,
             dither: v["dither"].as_bool()?,
             bg: v["bg"].as_str().map(|s| rgba_unhex(s)[0]),
+            before: v["before"].as_array().map(|a| a.iter().filter_map(QuantCase::from_json).collect()).unwrap_or_default(),
         })
+    }
+    /// the `Image` (a view with this case's strides and crop), its size, and the origin of the crop
+    fn image(&self) -> (Image, usize, usize, usize, usize) {
+        let (start, rs, cs) = self.lay();
+        let shape = if self.layout.is_none() {
+            Shape::from(Size::new(self.height, self.width))
+        } else {
+            let end = if self.height == 0 || self.width == 0 { start } else { start + (self.height - 1) * rs + self.width * cs };
+            Shape { start, end, width: self.width, height: self.height, row_stride: rs, col_stride: cs }
+        };
+        let full = Image::from_parts(Arc::from(self.data.clone().into_boxed_slice()), shape);
+        match self.crop {
+            None => (full, self.height, self.width, 0, 0),
+            Some((r0, r1, c0, c1)) => (full.crop(r0..r1, c0..c1), r1 - r0, c1 - c0, r0, c0),
+        }
+    }
+    /// the same logical image stored in another way: 1 transposed (column-major), 2 padded rows + offset,
+    /// 3 every `cs`-th cell of wider rows, 4 column-major with gaps; the cells in between hold other colours
+    fn relayout(mut self, rng: &mut Rng, kind: u64) -> QuantCase {
+        if self.layout.is_some() || self.height == 0 || self.width == 0 || kind == 0 {
+            return self;
+        }
+        let (h, w) = (self.height, self.width);
+        let (start, rs, cs) = match kind {
+            1 => (0, 1, h),
+            2 => (rng.below(5) as usize, w + 1 + rng.below(4) as usize, 1),
+            3 => {
+                let cs = 2 + rng.below(2) as usize;
+                (rng.below(3) as usize, w * cs + rng.below(3) as usize, cs)
+            }
+            _ => {
+                let rs = 1 + rng.below(2) as usize;
+                (rng.below(3) as usize, rs, h * rs + rng.below(3) as usize)
+            }
+        };
+        let len = start + (h - 1) * rs + (w - 1) * cs + 1 + rng.below(3) as usize;
+        let mut data: Vec<RGBA> = (0..len).map(|_| rand_rgba(rng, true)).collect();
+        for r in 0..h {
+            for c in 0..w {
+                data[start + r * rs + c * cs] = self.data[r * w + c];
+            }
+        }
+        self.data = data;
+        self.layout = Some((start, rs, cs));
+        self
     }
 }
 
@@ -504,20 +572,14 @@ fn position_sampled(h: usize, w: usize, k: usize, bg: Option<RGBA>, j: usize) ->
 
 fn run_quant(out: &mut Out, case: &QuantCase, kind: &str) {
     let input = case.to_json();
-    let full = Image::from_parts(
-        Arc::from(case.data.clone().into_boxed_slice()),
-        Shape::from(Size::new(case.height, case.width)),
-    );
-    let (img, h, w, r0, c0) = match case.crop {
-        None => (full, case.height, case.width, 0, 0),
-        Some((r0, r1, c0, c1)) => (full.crop(r0..r1, c0..c1), r1 - r0, c1 - c0, r0, c0),
-    };
+    let (img, h, w, r0, c0) = case.image();
     let bg_eff = case.bg.unwrap_or(RGBA::new(0, 0, 0, 255));
-    // the viewed pixels, row-major, computed from the full data (independent of the view machinery)
+    // the viewed pixels, row-major, computed from the backing buffer by the harness' own arithmetic
+    // (independent of Surface::get / iter / view)
     let mut px: Vec<Rgb> = Vec::with_capacity(h * w);
     for r in 0..h {
         for c in 0..w {
-            px.push(composite(bg_eff, case.data[(r0 + r) * case.width + c0 + c]));
+            px.push(composite(bg_eff, case.raw(r0 + r, c0 + c)));
         }
     }
     let distinct: BTreeSet<Rgb> = px.iter().copied().collect();
@@ -525,14 +587,22 @@ fn run_quant(out: &mut Out, case: &QuantCase, kind: &str) {
     if too_many_hung() {
         return;
     }
+    let before: Vec<(Image, usize, bool, Option<RGBA>)> =
+        case.before.iter().map(|b| (b.image().0, b.k, b.dither, b.bg)).collect();
     let res = watched(move || {
+        // earlier calls on this very thread
+        for (bi, bk, bd, bbg) in before.iter() {
+            let _ = guarded(|| bi.quantize(*bk, *bd, *bbg).is_some());
+        }
         img.quantize(k, dither, bg).map(|(pal, q)| {
             let prgb: Vec<Rgb> = pal.colors().iter().map(|c| c.to_rgb()).collect();
             let size_ok = pal.size() == prgb.len();
+            // index image read from its backing data with our own arithmetic
+            let (qs, qd) = (q.shape(), q.data());
             let mut idx = Vec::with_capacity(h * w);
             for r in 0..h {
                 for c in 0..w {
-                    idx.push(q.get(Position::new(r, c)).copied());
+                    idx.push(qd.get(qs.start + r * qs.row_stride + c * qs.col_stride).copied());
                 }
             }
             (prgb, q.height(), q.width(), idx, size_ok)
@@ -546,6 +616,12 @@ fn run_quant(out: &mut Out, case: &QuantCase, kind: &str) {
     out.hist(if dither { "quant:dither" } else { "quant:plain" });
     if case.crop.is_some() {
         out.hist("quant:cropped");
+    }
+    if let Some((_, rs, cs)) = case.layout {
+        out.hist(if cs != 1 { "quant:col-strided" } else if rs != case.width { "quant:row-padded" } else { "quant:offset" });
+    }
+    if !case.before.is_empty() {
+        out.hist("quant:after-other-calls");
     }
     // the distinct colours fit the request; whether the image is "small enough not to be subsampled" is
     // not decided by a constant here but, when a colour is missing, by probing the implementation
@@ -762,7 +838,10 @@ fn gen_quant(rng: &mut Rng, big: bool) -> (QuantCase, &'static str) {
         6 => ((d / 2).max(1) as usize, "k=distinct/2"),
         _ => ((d + rng.range(0, 20)) as usize, "k>=distinct"),
     };
-    (QuantCase { height: hh, width: ww, data, crop, k, dither: rng.chance(1, 2), bg }, kind)
+    let case = QuantCase { height: hh, width: ww, data, layout: None, crop, k, dither: rng.chance(1, 2), bg, before: vec![] };
+    // the same picture through another storage layout (transposed, padded, strided), half of the time
+    let lk = if rng.chance(1, 2) { 0 } else { 1 + rng.below(4) };
+    (case.relayout(rng, lk), kind)
 }
 
 /// An image in (or at the edge of) the band `100·ps .. 200·ps` pixels with at most `ps` distinct colours of
@@ -793,7 +872,7 @@ fn gen_band(rng: &mut Rng, ps: usize, area: Option<usize>) -> QuantCase {
         let j = rng.below((hh * ww) as u64) as usize;
         data[j] = *c;
     }
-    QuantCase { height: hh, width: ww, data, crop: None, k: ps, dither: rng.chance(1, 2), bg: None }
+    QuantCase { height: hh, width: ww, data, layout: None, crop: None, k: ps, dither: rng.chance(1, 2), bg: None, before: vec![] }
 }
 
 fn opaque(cs: &[Rgb]) -> Vec<RGBA> {
@@ -803,7 +882,9 @@ fn opaque(cs: &[Rgb]) -> Vec<RGBA> {
 fn main() {
     let cfg = Cfg::from_env();
     let mut out = cfg.out();
-    verif_harness::silence_panics();
+    if std::env::var("C13_TRACE").is_err() {
+        verif_harness::silence_panics();
+    }
     let rule = "kd: one case per (palette, query); non-trivial = palette of >= 2 entries; oct: one case per (colour sequence, ops), non-trivial = >= 2 distinct colours; quant: one case per (view pixels, k, dither), non-trivial = >= 2 distinct colours; distinct by full input";
 
     if let Some(rep) = &cfg.replay {
@@ -855,7 +936,7 @@ fn main() {
         data.extend(opaque(&nine[..3]));
         for dither in [false, true] {
             for k in [1usize, 8, 9, 12] {
-                run_quant(&mut out, &QuantCase { height: 3, width: 4, data: data.clone(), crop: None, k, dither, bg: None }, "corner");
+                run_quant(&mut out, &QuantCase { height: 3, width: 4, data: data.clone(), layout: None, crop: None, k, dither, bg: None, before: vec![] }, "corner");
             }
         }
         // exact fit: n distinct colours, k = n (and n ± 1), both dither settings; also through the octree API
@@ -866,20 +947,20 @@ fn main() {
             let (hh, ww) = (3usize, n / 2);
             for dither in [false, true] {
                 for k in [n, n + 1, n.saturating_sub(1).max(1)] {
-                    run_quant(&mut out, &QuantCase { height: hh, width: ww, data: data.clone(), crop: None, k, dither, bg: None }, "exact-fit");
+                    run_quant(&mut out, &QuantCase { height: hh, width: ww, data: data.clone(), layout: None, crop: None, k, dither, bg: None, before: vec![] }, "exact-fit");
                 }
             }
             run_oct(&mut out, &opaque(&cols), &n.to_string(), "exact-fit");
             run_oct(&mut out, &opaque(&cols), &format!("{},{}", n + 5, n), "exact-fit");
         }
         // one colour, duplicates only
-        run_quant(&mut out, &QuantCase { height: 5, width: 3, data: opaque(&[[9, 8, 7]; 15]), crop: None, k: 1, dither: true, bg: None }, "corner");
-        run_quant(&mut out, &QuantCase { height: 1, width: 1, data: opaque(&[[255, 255, 255]]), crop: None, k: 300, dither: false, bg: None }, "corner");
+        run_quant(&mut out, &QuantCase { height: 5, width: 3, data: opaque(&[[9, 8, 7]; 15]), layout: None, crop: None, k: 1, dither: true, bg: None, before: vec![] }, "corner");
+        run_quant(&mut out, &QuantCase { height: 1, width: 1, data: opaque(&[[255, 255, 255]]), layout: None, crop: None, k: 300, dither: false, bg: None, before: vec![] }, "corner");
         // transparent pixels over several backgrounds
         let tr: Vec<RGBA> = (0..12u8).map(|i| RGBA::new(i * 20, 255 - i * 20, 7 * i, if i % 3 == 0 { 255 } else { i * 21 })).collect();
         for bg in [None, Some(RGBA::new(255, 255, 255, 255)), Some(RGBA::new(10, 200, 90, 255)), Some(RGBA::new(10, 200, 90, 100))] {
-            run_quant(&mut out, &QuantCase { height: 3, width: 4, data: tr.clone(), crop: None, k: 16, dither: false, bg }, "corner");
-            run_quant(&mut out, &QuantCase { height: 3, width: 4, data: tr.clone(), crop: Some((0, 3, 1, 3)), k: 4, dither: true, bg }, "corner");
+            run_quant(&mut out, &QuantCase { height: 3, width: 4, data: tr.clone(), layout: None, crop: None, k: 16, dither: false, bg, before: vec![] }, "corner");
+            run_quant(&mut out, &QuantCase { height: 3, width: 4, data: tr.clone(), layout: None, crop: Some((0, 3, 1, 3)), k: 4, dither: true, bg, before: vec![] }, "corner");
         }
         // almost opaque / almost transparent pixels whose composited colour is 1 unit away from a colour
         // that is itself in the image: compositing in `from_image` and in `quantize` must agree
@@ -910,7 +991,7 @@ fn main() {
                         let dset: BTreeSet<Rgb> = data.iter().map(|c| composite(bgr, *c)).collect();
                         for dither in [false, true] {
                             for k in [dset.len(), dset.len() + 3] {
-                                run_quant(&mut out, &QuantCase { height: 2, width: 4, data: data.clone(), crop: None, k, dither, bg: Some(bgr) }, "alpha-edge");
+                                run_quant(&mut out, &QuantCase { height: 2, width: 4, data: data.clone(), layout: None, crop: None, k, dither, bg: Some(bgr), before: vec![] }, "alpha-edge");
                             }
                         }
                         made += 1;
@@ -925,16 +1006,69 @@ fn main() {
         // around the subsampling threshold h*w/(100k) = 2 with k = 1: 199, 200, 201 pixels
         for n in [199usize, 200, 201, 399, 400] {
             let data = gen_image(&mut rng, 1, n, 5, false);
-            run_quant(&mut out, &QuantCase { height: 1, width: n, data: data.clone(), crop: None, k: 1, dither: false, bg: None }, "corner");
-            run_quant(&mut out, &QuantCase { height: n, width: 1, data, crop: None, k: 5, dither: true, bg: None }, "corner");
+            run_quant(&mut out, &QuantCase { height: 1, width: n, data: data.clone(), layout: None, crop: None, k: 1, dither: false, bg: None, before: vec![] }, "corner");
+            run_quant(&mut out, &QuantCase { height: n, width: 1, data, layout: None, crop: None, k: 5, dither: true, bg: None, before: vec![] }, "corner");
         }
         // huge requests: `palette_size * 100` must not overflow (2^62 * 100 wraps to 0)
         for k in [usize::MAX, 1usize << 62, 184467440737095517, 184467440737095516, (1usize << 63) + 1] {
             let data = gen_image(&mut rng, 3, 5, 11, false);
-            run_quant(&mut out, &QuantCase { height: 3, width: 5, data, crop: None, k, dither: k % 2 == 0, bg: None }, "corner");
+            run_quant(&mut out, &QuantCase { height: 3, width: 5, data, layout: None, crop: None, k, dither: k % 2 == 0, bg: None, before: vec![] }, "corner");
         }
         // empty image: quantize answers None (outside the property, correspondence only)
-        run_quant(&mut out, &QuantCase { height: 0, width: 3, data: vec![], crop: None, k: 4, dither: false, bg: None }, "corner");
+        run_quant(&mut out, &QuantCase { height: 0, width: 3, data: vec![], layout: None, crop: None, k: 4, dither: false, bg: None, before: vec![] }, "corner");
+    }
+
+    // ---- storage layouts: the same 3×4 / 2×5 picture dense, transposed, padded, strided, and cropped on top
+    {
+        let pic: Vec<Rgb> = (0..12u32).map(|i| [(i * 20) as u8, (250 - i * 9) as u8, ((i * 53) % 251) as u8]).collect();
+        for lk in 0..5u64 {
+            for (crop, k) in [(None, 12usize), (None, 5), (Some((1usize, 3usize, 1usize, 4usize)), 6), (Some((0, 3, 2, 3)), 3)] {
+                for dither in [false, true] {
+                    let base = QuantCase { height: 3, width: 4, data: opaque(&pic), layout: None, crop, k, dither, bg: None, before: vec![] };
+                    run_quant(&mut out, &base.relayout(&mut rng, lk), "layout");
+                }
+            }
+        }
+    }
+    // ---- calls in sequence on one thread: a lossy dithered run first, then images whose colours fit (equal,
+    //      narrower, wider), dithered and not — each call must behave as if it were the first
+    let n_seq = 16 * scale;
+    for i in 0..n_seq {
+        let (h0, w0) = (rng.range(2, 12) as usize, rng.range(2, 16) as usize);
+        let nc0 = 60 + rng.below(200) as usize;
+        let first = QuantCase { height: h0, width: w0, data: gen_image(&mut rng, h0, w0, nc0, false),
+                                layout: None, crop: None, k: rng.range(1, 6) as usize, dither: true, bg: None, before: vec![] };
+        let mut seq = vec![first];
+        for j in 0..(1 + rng.below(2)) {
+            let w1 = match (i as u64 + j) % 3 {
+                0 => w0,
+                1 => rng.range(1, w0 as i64) as usize,
+                _ => w0 + rng.range(1, 6) as usize,
+            };
+            let h1 = rng.range(1, 8) as usize;
+            // few colours close to each other: a stray error of a few units changes the answer
+            let d = rng.range(2, 8) as usize;
+            let centre = rand_rgba(&mut rng, true).to_rgba();
+            let mut cols: Vec<RGBA> = Vec::new();
+            while cols.len() < d {
+                let c = RGBA::new(
+                    clampu8(centre[0] as i64 + rng.range(-3, 3)),
+                    clampu8(centre[1] as i64 + rng.range(-3, 3)),
+                    clampu8(centre[2] as i64 + rng.range(-3, 3)),
+                    255,
+                );
+                if !cols.contains(&c) {
+                    cols.push(c);
+                }
+            }
+            let data: Vec<RGBA> = (0..h1 * w1).map(|_| *rng.pick(&cols)).collect();
+            let case = QuantCase { height: h1, width: w1, data, layout: None, crop: None, k: d + rng.below(3) as usize,
+                                   dither: !rng.chance(1, 5), bg: None, before: seq.clone() };
+            run_quant(&mut out, &case, "sequence");
+            let mut plain = case.clone();
+            plain.before = vec![];
+            seq.push(plain);
+        }
     }
 
     // ---- k-d tree: palettes of 1..=512 colours
@@ -1004,6 +1138,8 @@ fn main() {
     for _ in 0..14 * scale {
         let ps = *rng.pick(&[2usize, 3, 4, 6, 8, 8, 11, 16, 20]);
         let case = gen_band(&mut rng, ps, None);
+        let lk = if rng.chance(2, 3) { 0 } else { 1 + rng.below(4) };
+        let case = case.relayout(&mut rng, lk);
         run_quant(&mut out, &case, "band");
     }
 
